@@ -44,9 +44,11 @@ pub mod extras {
     }
     #[cglue_trait]
     pub trait IrMethod {
+        // (an error type that cannot be int-coded comes before the marked method: should the attribute ever leak to later
+        // methods, the program must still compile so that the difference shows at run time)
+        fn im_plain(&self, v: i32) -> Result<u64, u64>;
         #[int_result]
         fn im_pay(&self, v: i32) -> Result<u64, std::io::Error>;
-        fn im_plain(&self, v: i32) -> Result<u64, u64>;
         // an unmarked method after a marked one, with an error type that could be int-coded: it must not be
         fn im_after(&self, v: i32) -> Result<u64, std::io::Error>;
     }
